@@ -177,6 +177,8 @@ LenRight == \A j \in fin : shape[j].kind \in {"imap", "imapu"} => job[j].len = P
 (* C07: on the way out nothing more is fed; both kinds of sentinel go out *)
 Leaving == pc \in {"tell", "tellw", "done"}
 NoFeedAfterStop == [][Leaving => (Leaving' /\ sent' = sent /\ blame' = blame)]_vars
+(* C08: once the handler's state says stop, the very next task fetched is not put *)
+StopSeenAtOnce == [][(hstate = "STOP" /\ act'.name = "Fetch") => pc' # "put"]_vars
 Sentinels == pc = "done" => (outs = 1 /\ (wsent = NWorkers \/ tellio))
 SentinelsOnlyLeaving == (outs > 0 \/ wsent > 0) => Leaving
 (* the handler thread never dies of an exception *)
